@@ -41,7 +41,8 @@ CONSTANTS ShapeSet,     \* the family of plan shapes explored (Init picks one)
           MaxCrashes,   \* crashes per behaviour
           MaxRuns,      \* runs of one continuous-check loop (ticks) per process lifetime
           Tolerated,    \* clauses allowed to be false (known findings), normally {}
-          Gen           \* TRUE: keep the history of observable events (scenario generation)
+          Gen           \* "off" | "full": hist is the history of observable events (scenario generation)
+                        \* | "last": hist = <<last event, parity>> (trace conformance, EngineConf.tla)
 
 GroupsAll == {"bypass", "pre", "cont", "post", "deferred"}
 GOrder == <<"bypass", "pre", "cont", "post", "deferred">>
@@ -127,7 +128,7 @@ EvPE(a, n, out) == [ev |-> "PEnd", obj |-> a, n |-> n, out |-> out, rtag |-> "",
 \* a step that emits event e
 Emit(e) == /\ obs' = Observe(obs, e)
            /\ bad' = bad \cup (ViolatedFast(obs, e) \ Tolerated)
-           /\ hist' = IF Gen THEN Append(hist, e) ELSE hist
+           /\ hist' = IF Gen = "full" THEN Append(hist, e) ELSE IF Gen = "last" THEN <<e, 1 - hist[2]>> ELSE hist
 Silent == UNCHANGED <<obs, bad, hist>>
 
 \* durable write of object o's in-memory record (only called when it changes the stored record)
@@ -153,7 +154,7 @@ Init ==
   /\ waiter = "none" /\ alive = TRUE /\ crashes = 0
   /\ ncall = [o \in {d.obj : d \in {x \in DescsOf(sh) : x.k \in {"act", "cact"}}} |-> 0]
   /\ wq = <<>>
-  /\ obs = InitObs(ConfigOf(sh)) /\ bad = {} /\ hist = <<>>
+  /\ obs = InitObs(ConfigOf(sh)) /\ bad = {} /\ hist = IF Gen = "last" THEN <<[ev |-> "none"], 0>> ELSE <<>>
 
 (* ------------------------------------------------------------------ *)
 (* the action state machine (internal/execute/sm/actions)             *)
@@ -190,7 +191,7 @@ APEnd(a, out) ==
 AWAtt(a) ==
   /\ am[a] = "watt"
   /\ Write(a) /\ Emit(EvW(a))
-  /\ am' = [am EXCEPT ![a] = IF LastOf(mem[a]) = "tr" THEN "exec" ELSE "end"]
+  /\ am' = [am EXCEPT ![a] = IF LastOf(mem[a]) \in {"tr", "timeout"} THEN "exec" ELSE "end"]
   /\ UNCHANGED <<mem, ncall>> /\ UNCH_MAIN
 \* End: Completed iff the last attempt has no error; written
 AEnd(a) ==
@@ -339,7 +340,7 @@ FlushThen(o, next) ==
 MStartApi ==
   /\ pc = "idle" /\ alive /\ waiter = "none" /\ dur["p"].st = NS
   /\ waiter' = "open" /\ pc' = "Start"
-  /\ Emit([ev |-> "StartRet", ok |-> TRUE, after |-> FALSE, known |-> TRUE, stale |-> FALSE])
+  /\ Silent      \* the return of Start() races with the plan goroutine's first write: not an ordered event of the model
   /\ UNCHANGED <<mem, dur, mreason, dreason, cb, wk, lim, fails, li, am, rn, cl, ch, runs, wq>> /\ UNCH_M
 MStart ==
   /\ pc = "Start"
@@ -708,7 +709,7 @@ ScnOf == [shape |-> sh,
           evs |-> SelectSeq([i \in 1..Len(hist) |-> Compact(hist[i])], LAMBDA x : x.e # "-"),
           final |-> [o \in DOMAIN dur |-> [st |-> dur[o].st, natt |-> Len(dur[o].atts)]],
           reason |-> dreason]
-EmitScn == (Gen /\ pc = "finished") => PrintT("SCN " \o ToJson(ScnOf))
+EmitScn == (Gen = "full" /\ pc = "finished") => PrintT("SCN " \o ToJson(ScnOf))
 
 (* ------------------------------------------------------------------ *)
 (* properties                                                         *)
